@@ -2,22 +2,8 @@
 from world import *
 
 
-def world_check(PROP, THEOREMS, tier, seed, monitors, n_quick=250, n_thorough=2500, gen_kw=None, extra_modules=("Model.All",),
-                clean_oracle=False, replay=None, note=None, scen_gen=None):
-    run = Run(PROP, tier, seed, "proof")
-    rng = random.Random(seed)
-    if THEOREMS and isinstance(THEOREMS[0], str):
-        info, problems = proof_gate_multi(THEOREMS, thorough=(tier == "thorough"))
-    else:
-        info, problems = proof_gate(PROP, THEOREMS, extra_modules=list(extra_modules), thorough=(tier == "thorough"))
-    for p in problems:
-        run.tie("proof gate", p)
-    drv = build_driver()
-    har, out = build_harness()
-    if har is None:
-        run.tie("harness build", out[-2000:])
-        return run.finish()
-    n = n_quick if tier == "quick" else n_thorough
+def world_leg(run, PROP, rng, tier, drv, har, n, monitors, gen_kw=None, clean_oracle=False, replay=None, scen_gen=None):
+    """histories through the instrumented scheduler; every trace replayed through both models; monitors on each invocation"""
     hist = []
     if replay:
         rp = json.load(open(replay))
@@ -84,6 +70,27 @@ def world_check(PROP, THEOREMS, tier, seed, monitors, n_quick=250, n_thorough=25
                         run.report_failure(cls, "after a successful incremental build output %r differs from what a clean build produces" % name,
                                            dict(where, output=name, incremental=got, clean=(mt, dig)))
                         break
+    return stats, nontrivial, samples, items
+
+
+def world_check(PROP, THEOREMS, tier, seed, monitors, n_quick=250, n_thorough=2500, gen_kw=None, extra_modules=("Model.All",),
+                clean_oracle=False, replay=None, note=None, scen_gen=None):
+    run = Run(PROP, tier, seed, "proof")
+    rng = random.Random(seed)
+    if THEOREMS and isinstance(THEOREMS[0], str):
+        info, problems = proof_gate_multi(THEOREMS, thorough=(tier == "thorough"))
+    else:
+        info, problems = proof_gate(PROP, THEOREMS, extra_modules=list(extra_modules), thorough=(tier == "thorough"))
+    for p in problems:
+        run.tie("proof gate", p)
+    drv = build_driver()
+    har, out = build_harness()
+    if har is None:
+        run.tie("harness build", out[-2000:])
+        return run.finish()
+    n = n_quick if tier == "quick" else n_thorough
+    stats, nontrivial, samples, items = world_leg(run, PROP, rng, tier, drv, har, n, monitors, gen_kw=gen_kw, clean_oracle=clean_oracle,
+                                                  replay=replay, scen_gen=scen_gen)
     run.coverage.update(info)
     run.coverage.update({
         "checker_cmd": "make -C coq theories/Props/%s.vo && coqc Gate_%s.v" % (PROP, PROP),
@@ -137,3 +144,54 @@ def monitor_null_build(run, where, inv, meta, hist, ii, rep):
         if all(n in prev.files for n in names):
             if inv.result != "ok:0":
                 run.report_failure(None, "a repeated build with nothing changed is not a null build: %s" % inv.result[:60], where)
+
+
+def lexically_canonical(name):
+    if name in (b"", b".", b"/"):
+        return name != b""
+    comps = name.split(b"/")
+    body = comps[1:] if name.startswith(b"/") else comps
+    if body and body[-1] == b"":
+        body = body[:-1]                      # a trailing separator is significant and kept
+    seen_name = False
+    for c in body:
+        if c in (b"", b"."):
+            return False
+        if c == b"..":
+            if seen_name:
+                return False
+        else:
+            seen_name = True
+    return True
+
+
+def db_names(db):
+    """the path records of a log, in order"""
+    names, i = [], 8
+    while i + 2 <= len(db):
+        m = int.from_bytes(db[i:i + 2], "little")
+        i += 2
+        if m & 0x8000:
+            no = m & 0x7fff
+            i += 3 * no
+            nd = int.from_bytes(db[i:i + 2], "little")
+            i += 2 + 3 * nd + 8
+        else:
+            names.append(db[i:i + m])
+            i += m
+    return names
+
+
+def monitor_one_node_per_location(run, where, inv, meta, hist, ii, rep):
+    """C13 at whole-program level: whatever spelling the manifest, the command line or a command's report used, the log names each
+    location once, under its canonical spelling"""
+    if not inv.db or not inv.db.startswith(b"n2db"):
+        return
+    names = db_names(inv.db)
+    for n in names:
+        if not lexically_canonical(n):
+            run.report_failure(None, "a file was entered in the graph under the non-canonical spelling %r (a second node for the same location)" % n, where)
+            return
+    if len(set(names)) != len(names):
+        dup = [n for n in set(names) if names.count(n) > 1][0]
+        run.report_failure(None, "the log names %r twice (two nodes for one spelling)" % dup, where)
